@@ -168,6 +168,14 @@ def run_doc(args):
                 if fq is not None:
                     v = m.add_variable('c18$foreign%d' % j, 'dimensionless')
                     m.add_equation(sympy.Eq(v, fq))
+                # ... nor may a VARIABLE be created with such a unit, or with something that is no unit at all
+                for k_, fu2 in enumerate((fu, 1 / m.units.get_unit('second'), 'c18_undefined_unit_name')):
+                    try:
+                        fv = m.add_variable('c18$fvar%d_%d' % (j, k_), fu2, initial_value=1.0)
+                    except Exception:
+                        continue
+                    w = m.add_variable('c18$fvaruse%d_%d' % (j, k_), 'dimensionless')
+                    m.add_equation(sympy.Eq(w, fv * m.create_quantity(1.0, 'dimensionless')))
             elif kind == 'mixfix':
                 # an equation that mixes scales goes through a unit-fix pass: the conversion factor it plants is a number
                 # of the model like any other (and a second pass over the result is a no-op, not an error)
@@ -261,7 +269,7 @@ def run_api_singular(seed):
                 return [U / (EXP(U) - q(1, d)), U / (q(1, d) - EXP(U)), (EXP(U) - q(1, d)) / U, (q(1, d) - EXP(U)) / U][form]
             form = rng.randrange(4)
             ghk = pattern(U, form)
-            shape = rng.randrange(8)
+            shape = rng.randrange(9)
             if force and j == 0:
                 shape = 7      # every third case: twin models whose first equation has a singular point depending on a variable
             if shape == 0:
@@ -272,6 +280,12 @@ def run_api_singular(seed):
                 rhs = sp.Pow(q(2, d) + ghk, -1)
             elif shape == 3:
                 rhs = q(1.5, d) + ghk
+            elif shape == 8:
+                # next to the term, a negative power other than -1 of something with exp (a squared sigmoid in a denominator,
+                # once with an integer and once with a quantity exponent)
+                U2 = q(rng.choice([0.26, -0.08]), per_mV) * V + q(1.5, d)
+                sig = q(1, d) + EXP(U2)
+                rhs = ghk + q(2, d) / sig ** 2 + q(0.5, d) * sig ** q(-3, d) + q(1, d) / sp.sqrt(sig)
             elif shape == 6:
                 # product of two terms with DIFFERENT singular points (nested repair)
                 offs2 = offs + rng.choice([15.0, -7.5, 40.0])
